@@ -1,10 +1,15 @@
 #!/bin/sh
-# usage: tools/try_seed.sh <seed-dir-name> <check-id> [tier]   -- apply seeded/<name>/patch.diff to /repo, run check, revert
+# usage: tools/try_seed.sh <seed-dir-name> <check-id> [tier]
+#  applies seeded/<name>/patch.diff to /repo, runs the check, reverts; the evidence file written by the
+#  seeded run is moved aside (evidence/ must only ever hold records of runs on /repo itself)
 name=$1; id=$2; tier=${3:-quick}
 cd /verif
+cp evidence/$id.json _work/evidence_$id.keep 2>/dev/null
 git -C /repo apply /verif/seeded/$name/patch.diff || exit 2
 ./check $id --tier $tier > _work/seed_$name.$id.log 2>&1
 rc=$?
 git -C /repo checkout -- .
+cp evidence/$id.json _work/seed_$name.$id.evidence.json 2>/dev/null
+[ -f _work/evidence_$id.keep ] && mv _work/evidence_$id.keep evidence/$id.json
 grep -E "^VIOLATION|^KNOWN|OK \(" _work/seed_$name.$id.log | head -5
 echo "seed=$name check=$id rc=$rc"
